@@ -521,47 +521,78 @@ pub struct History {
 
 pub fn run_history(t: &LspTrace) -> History {
     lay_out_ws(t);
-    let hooks = SimHooks::new(root(), t.dir_seed, vec![]);
-    let mut incs = vec![];
-    let mut seed_i = 0;
     let seed = |i: usize| t.hash_seeds.get(i % t.hash_seeds.len().max(1)).copied().unwrap_or(1);
-    let mut session = Session::start_shaped(seed(seed_i), hooks.clone(), ws_folder_uri(t), t.init_shape);
-    let mut model = Model::default();
-    let mut prev_notification: Option<(usize, lsp_server::Message)> = None;
+    // The history is cut at every simulated crash. Each server incarnation lives in a forked child
+    // of its own (a restarted server is a new process: nothing but the disk and the editor's belief
+    // survives); the child returns the recorded incarnation and the editor's belief at its end.
+    let mut segments: Vec<(usize, usize)> = vec![];
+    let mut from = 0;
     for (i, ev) in t.events.iter().enumerate() {
-        if session.is_dead() {
-            break;
+        if matches!(ev, Event::Restart) {
+            segments.push((from, i));
+            from = i + 1;
         }
-        match ev {
-            Event::Restart => {
-                incs.push(session.crash());
-                seed_i += 1;
-                session = Session::start_shaped(seed(seed_i), hooks.clone(), ws_folder_uri(t), t.init_shape);
+    }
+    segments.push((from, t.events.len()));
+    let mut incs = vec![];
+    let mut docs: BTreeMap<String, (i32, String)> = BTreeMap::new();
+    let last = segments.len() - 1;
+    for (k, (a, b)) in segments.iter().copied().enumerate() {
+        let docs_in = docs.clone();
+        let hash_seed = seed(k);
+        let forked: Result<(Incarnation, BTreeMap<String, (i32, String)>), String> = crate::seam::run_forked(move || {
+            let hooks = SimHooks::new(root(), t.dir_seed, vec![]);
+            let mut session = Session::start_shaped(hash_seed, hooks, ws_folder_uri(t), t.init_shape);
+            let mut model = Model { docs: docs_in };
+            if k > 0 {
                 // the editor re-opens what it believes to be open
                 for (uri, (version, text)) in model.docs.clone() {
                     let open = Event::Open { uri, version, text };
-                    session.deliver(Some(i), "reopen", event_message(&open, i).unwrap());
-                }
-                prev_notification = None;
-            }
-            Event::DupPrev => {
-                if let Some((_, m)) = &prev_notification {
-                    session.deliver(Some(i), "duplicateDelivery", m.clone());
+                    session.deliver(Some(a - 1), "reopen", event_message(&open, a - 1).unwrap());
                 }
             }
-            _ => {
-                let m = event_message(ev, i).unwrap();
-                if matches!(m, lsp_server::Message::Notification(_)) {
-                    prev_notification = Some((i, m.clone()));
-                } else {
-                    prev_notification = None;
+            let mut prev_notification: Option<lsp_server::Message> = None;
+            for i in a..b {
+                if session.is_dead() {
+                    break;
                 }
-                session.deliver(Some(i), ev.kind(), m);
-                model.apply(ev);
+                let ev = &t.events[i];
+                match ev {
+                    Event::Restart => unreachable!("segments are cut at restarts"),
+                    Event::DupPrev => {
+                        if let Some(m) = &prev_notification {
+                            session.deliver(Some(i), "duplicateDelivery", m.clone());
+                        }
+                    }
+                    _ => {
+                        let m = event_message(ev, i).unwrap();
+                        prev_notification = if matches!(m, lsp_server::Message::Notification(_)) { Some(m.clone()) } else { None };
+                        session.deliver(Some(i), ev.kind(), m);
+                        model.apply(ev);
+                    }
+                }
+            }
+            let dead = session.is_dead();
+            let inc = if k < last && !dead { session.crash() } else { session.shutdown_and_exit() };
+            (inc, model.docs)
+        });
+        match forked {
+            Ok((inc, docs_out)) => {
+                let died = inc.died.is_some();
+                incs.push(inc);
+                docs = docs_out;
+                if died {
+                    break;
+                }
+            }
+            Err(why) => {
+                // the whole server process went down (abort, stack overflow): the incarnation is
+                // recorded as dead at its first step
+                incs.push(Incarnation { hash_seed, steps: vec![], died: Some(format!("server process died: {why}")), died_at_step: None, result: None, crashed_by_simulator: false, still_receiving_after_exit: false });
+                break;
             }
         }
     }
-    incs.push(session.shutdown_and_exit());
     History { incarnations: incs }
 }
 
@@ -1406,12 +1437,19 @@ pub fn execute(t: &LspTrace, stats: &mut Stats) -> RunReport {
     let shape: Vec<&str> = t.events.iter().map(|e| e.kind()).collect();
     stats.distinct_str("history_shapes", &shape.join(","));
 
-    let violations = match t.prop.as_str() {
+    let mut violations = match t.prop.as_str() {
         "C11" => oracle_c11(t, &h, stats),
         "C12" => oracle_c12(t, &h, stats),
         "C15" => oracle_c15(t, &h, stats),
         other => panic!("no lsp oracle for {other}"),
     };
+    // the process of a server incarnation went down as a whole (abort, stack overflow, exit): no
+    // panic to catch and no step to attribute it to
+    for inc in &h.incarnations {
+        if let Some(why) = inc.died.as_ref().filter(|d| d.starts_with("server process died")) {
+            violations.push(viol(&t.prop, format!("{}/server-process-died", t.prop), why.clone()));
+        }
+    }
     let nontrivial = t.events.iter().any(|e| matches!(e, Event::Open { .. } | Event::Change { .. } | Event::SemTok { .. } | Event::UnknownRequest { .. } | Event::ClientResponse { .. }));
     // single-incarnation, disk-free histories can be cross-checked against the shipped binary
     let mut proc_cases = vec![];
